@@ -241,6 +241,53 @@ def check_calls(r):
     return None
 
 
+def check_calls_twins(r):
+    """two channels of ONE element carrying shapes that look alike in a description (made by one factory: same qualified
+    name, same arguments, durations, names) but are different functions; and a shape with an array-valued argument.  Every
+    segment's own function is called, once, with exactly its stored arguments, and its block holds what it returned."""
+    SR = r.choice([10, 100, 1e6])
+    n = r.randint(3, 30)
+    log = []
+
+    def make_shape(sign):
+        def shape(level, SR, npts):
+            log.append((sign, level, SR, npts))
+            return sign * level * np.ones(int(npts))
+        return shape
+    up, down = make_shape(1.0), make_shape(-1.0)
+    lv = r.choice([0.5, 1, -0.25])
+    e = Element()
+    for ch, f in ((1, up), (2, down)):
+        bp = BluePrint()
+        bp.insertSegment(-1, f, (lv,), dur=n / SR, name="lvl")
+        bp.setSR(SR)
+        e.addBluePrint(ch, bp)
+    arrs = e.getArrays()
+    if sorted(c[0] for c in log) != [-1.0, 1.0]:
+        return f"two channels with two different user shapes of one factory: calls made {[(c[0], c[1]) for c in log]} (each shape once expected)"
+    for ch, sign in ((1, 1.0), (2, -1.0)):
+        if not np.array_equal(np.asarray(arrs[ch]["wfm"], float), sign * lv * np.ones(n)):
+            return f"channel {ch}: the block is not what this channel's own shape returned ({arrs[ch]['wfm'][:3]} ..., expected {sign * lv})"
+    # an array-valued argument (a table of levels) reaches the shape as the array that was stored
+    got = {}
+
+    def table(levels, SR, npts):
+        got["levels"] = levels
+        return np.resize(np.asarray(levels, float) * 2, int(npts))
+    levels = np.array([r.uniform(-1, 1) for _ in range(3)])
+    bp = BluePrint()
+    bp.insertSegment(-1, table, (levels,), dur=n / SR, name="tab")
+    bp.setSR(SR)
+    e2 = Element()
+    e2.addBluePrint(1, bp)
+    w = np.asarray(e2.getArrays()[1]["wfm"], float)
+    if not isinstance(got.get("levels"), np.ndarray) or not np.array_equal(got["levels"], levels):
+        return f"user shape with an array argument was called with {type(got.get('levels')).__name__} {got.get('levels')!r}, stored: ndarray {levels!r}"
+    if not np.array_equal(w, np.resize(levels * 2, n)):
+        return "user shape with an array argument: the block is not what the shape returns for the stored arguments"
+    return None
+
+
 def check_arb(r):
     SR = r.choice([1, 10, 2.5, 1e6, 1e9])
     n = r.randint(2, 50)
@@ -315,6 +362,12 @@ def direct(seed, tier, model, stats):
         tested["calls"] += 1
         if d:
             fails.append({"what": d, "call": "user-shape call convention (Element.getArrays on a blueprint of recording shapes)"})
+            break
+    for _ in range(20 if tier == "quick" else 200):
+        d = check_calls_twins(r)
+        tested["calls"] += 1
+        if d:
+            fails.append({"what": d, "call": "user-shape call convention (two look-alike shapes on two channels; array-valued argument)"})
             break
     for _ in range(30 if tier == "quick" else 300):
         d = check_arb(r)
